@@ -208,6 +208,8 @@ pub struct Ctx {
     pub trace: bool,
     pub trace_lines: Vec<String>,
     pub alive_before_gc: usize,
+    /// frame depth at the first instruction of this run (top level of the line)
+    pub base_frames: usize,
 }
 
 impl Ctx {
@@ -242,6 +244,7 @@ impl Ctx {
             trace: false,
             trace_lines: Vec::new(),
             alive_before_gc: 0,
+            base_frames: 0,
         }
     }
 
@@ -751,7 +754,10 @@ fn proceed(ctx: &mut Ctx, info: &StepInfo) -> StepAction {
         }
         ctx.alive_before_gc = shadow::lock().alive_of(ctx.eval_id).len();
     }
-    if info.frames == 1 && (b == o.set_global || b == o.index_set) {
+    if ctx.base_frames == 0 {
+        ctx.base_frames = info.frames;
+    }
+    if info.frames == ctx.base_frames && (b == o.set_global || b == o.index_set) {
         ctx.effects += 1;
         ctx.effect_steps.push(ctx.step - 1);
     }
